@@ -18,7 +18,7 @@ structure Scenario where
   bodies : List Char
   sched : List Step
 
-def parseParams (s : String) : Option (Int × Int × Nat × Nat × Nat × Nat) := do
+def parseParams (s : String) : Option (Int × Int × Nat × Nat × Nat × Nat × Nat) := do
   let kvs ← (s.splitOn ",").mapM fun f =>
     match f.splitOn "=" with
     | [k, v] => v.toInt?.map fun n => (k, n)
@@ -31,8 +31,10 @@ def parseParams (s : String) : Option (Int × Int × Nat × Nat × Nat × Nat) :
   let bm ← get "bm"
   let fn ← get "fn"
   let _ ← get "ip"
-  if kvs.length != 7 || rl < 0 || h < 0 || bm < 0 || bm > 2 || fn < 0 then none else
-  some (rm, cr, rl.toNat, h.toNat, bm.toNat, fn.toNat)
+  let od := (get "od").getD 0
+  let nk := if (get "od").isSome then 8 else 7
+  if kvs.length != nk || rl < 0 || h < 0 || bm < 0 || bm > 2 || fn < 0 || od < 0 || od > 4 then none else
+  some (rm, cr, rl.toNat, h.toNat, bm.toNat, fn.toNat, od.toNat)
 
 def parseBacks : List Char → Option (List Back)
   | [] => some []
@@ -53,6 +55,7 @@ def parseSub (s : String) : Option Sub :=
 
 def parseRt (c : Char) : Option Rt :=
   if c == '2' then some (.ok 200) else if c == '5' then some (.ok 503)
+  else if c == '4' then some (.ok 404) else if c == '3' then some (.ok 302)
   else if c == 'c' || c == 'C' then some .connect
   else if c == 'w' || c == 'W' then some .write
   else if c == 'v' then some .writeT
@@ -128,10 +131,10 @@ def parseStep (cfg : Cfg) (n : Nat) (s : String) : Option Step :=
 def parseOp (op : String) : Option Scenario :=
   match op.splitOn "/" with
   | [p, ss, rs, sc] => do
-    let (rm, cr, rl, h, bm, fn) ← parseParams p
+    let (rm, cr, rl, h, bm, fn, od) ← parseParams p
     let subs ← (ss.splitOn ";").mapM parseSub
     let reqs ← (rs.splitOn ";").mapM parseReq
-    let cfg : Cfg := ⟨rm, cr, rl, h, bm, fn, subs⟩
+    let cfg : Cfg := ⟨rm, cr, rl, h, bm, fn, subs, od⟩
     let sched ← (sc.splitOn ".").mapM (parseStep cfg reqs.length)
     if subs.length > 8 || reqs.length > 8 then none else
     some ⟨cfg, reqs.map (·.1), reqs.map (·.2.1), reqs.map (·.2.2), sched⟩
